@@ -571,6 +571,11 @@ func (vt *Model) Draw(win vaxis.Window) {
 	defer vt.mu.Unlock()
 	vt.dirty = false
 	width, height := win.Size()
+	if width <= 0 || height <= 0 {
+		// nothing is visible (Window.New yields such sizes at the
+		// edge of its parent); a terminal of that size can't exist
+		return
+	}
 	if int(width) != vt.width() || int(height) != vt.height() {
 		win.Width = width
 		win.Height = height
